@@ -766,7 +766,11 @@ impl SwiftParser {
                         let end = start + end;
                         Ok(Some(raw_message[content_start..end].to_string()))
                     } else {
-                        Ok(None)
+                        // the block is opened but never closed: not the same as absent
+                        Err(ParseError::InvalidBlockStructure {
+                            block: block_index.to_string(),
+                            message: format!("Block {block_index} is not closed"),
+                        })
                     }
                 }
                 4 => {
